@@ -82,6 +82,7 @@ func props() map[string]Prop {
 			ID: "C07", Level: "exploration",
 			Units: []Unit{
 				{Name: "seq", Pkg: "internal/upload", Harness: "internal_upload", Run: "^TestVerifUploadSeq$", Instrument: uploadInstr, Timeout: 30 * time.Minute},
+				{Name: "conc", Pkg: "internal/upload", Harness: "internal_upload", Run: "^TestVerifUploadConc$", Instrument: uploadInstr, Timeout: 40 * time.Minute},
 			},
 			Assume: []string{"counter names are valid UTF-8 and sums stay below 2^62 (reports carry int64 in JSON)", "counter files are produced by the independent writer in /verif/ref with the documented metadata"},
 		},
@@ -96,8 +97,19 @@ func props() map[string]Prop {
 			ID: "C02", Level: "exploration",
 			Units: []Unit{
 				{Name: "seq", Pkg: "internal/upload", Harness: "internal_upload", Run: "^TestVerifUploadSeq$", Instrument: uploadInstr, Timeout: 30 * time.Minute},
+				{Name: "mode", Pkg: "internal/upload", Harness: "internal_upload", Run: "^TestVerifC02Mode$", Instrument: uploadInstr, Timeout: 30 * time.Minute},
 			},
 			Assume: []string{"start times are passed explicitly (virtual calendar 2019-2031)"},
+		},
+		{
+			ID: "C08", Level: "exploration",
+			Units: []Unit{
+				{Name: "conc", Pkg: "internal/upload", Harness: "internal_upload", Run: "^TestVerifUploadConc$", Instrument: uploadInstr, Timeout: 40 * time.Minute},
+			},
+			Assume: []string{
+				"uploaders are virtual threads in one process sharing the directory; a kill parks the thread for ever at a scheduling point (no deferred cleanup runs), which equals kill -9 for code whose shared state is the file system",
+				"'eventually acknowledged' is judged as: acknowledged within the scenario's rounds plus one extra round after a failed request",
+			},
 		},
 	}
 	m := map[string]Prop{}
